@@ -155,7 +155,7 @@ theorem sidd_reads_lut (n e : Nat) (pv irep imode iid1 lab : String) (nb rows co
     simp only [getDtype, p3, p4, p5, hraw, hc, hl]
     simp [pyIdx]
   simp only [siddRead, siddReaderCompliance, hnc, p6, p7, hi, interp, hr, hg, p3]
-  simp [formatFunction]
+  simp [formatFunction, ctorOk]
 
 example : rawDtype "INT" (8 / 8) = .ok (some u1) ∧ checkIidFormat "SIDD001001" = true := by decide
 
